@@ -55,7 +55,8 @@ META = dict(
                'photutils.psf.epsf:EPSFBuilder.__call__'],
     bounds=('33 entry points x container in {ndarray, MaskedArray, Quantity, '
             'view of a larger array} x {NaN present} x {negative pixels '
-            'inside sources} x mask in {none, bool, int8} x error given; '
+            'inside sources} x mask in {none, bool, int8} x error given x '
+            '{error / mask of a wrong shape, so that the call raises}; '
             'every feasible combination accepted by the entry point is run '
             'once on a generated 40x44 scene (Background2D additionally with '
             'box widths equal to the image width); every lazily evaluated '
@@ -611,8 +612,10 @@ def _entries():
 _last_raise = [None]
 
 
-def _check(entry, container, nan, neg, maskk, err, boxw=None):
-    """Run one entry point on one generated input; -> None or message."""
+def _check(entry, container, nan, neg, maskk, err, boxw=None, bad=False):
+    """Run one entry point on one generated input; -> None or message.
+    ``bad``: error and mask are given a wrong shape so that the call raises
+    (the frame condition also covers calls that raise)."""
     import astropy.units as u
     E = _entries()
     accepted, fn = E[entry]
@@ -632,6 +635,11 @@ def _check(entry, container, nan, neg, maskk, err, boxw=None):
             0.02 * np.arange(img.shape[0])[:, None]  # non-uniform
         if unit is not None:
             error = error * unit
+    if bad:
+        if error is not None:
+            error = error[:-1, :-2]
+        if mask is not None:
+            mask = mask[:-3]
     inputs = dict(data=data, mask=mask, error=error,
                   box=(8, boxw) if boxw else (10, 11))
     before = {k: _snap(v) for k, v in inputs.items() if k != 'box'}
@@ -739,18 +747,19 @@ def _run_entry(case):
         boxw = None
         if entry == 'Background2D':
             boxw = ctx.choice('boxw', [11, 44, 22])
+        bad = ctx.flag('badshape') if (err or maskk != 'none') else False
         ctx.stats.obligations += 1
         cnt['n'] += 1
-        msg = _check(entry, container, nan, neg, maskk, err, boxw)
+        msg = _check(entry, container, nan, neg, maskk, err, boxw, bad)
         if _last_raise[0] is not None and not nan and maskk != 'int8' \
-                and container in ('ndarray', 'view'):
+                and not bad and container in ('ndarray', 'view'):
             # vacuity guard: the plain call must actually run
             raise RuntimeError(f'entry {entry} raised on a plain input: '
                                f'{_last_raise[0]!r}')
-        if msg is None:
+        if msg is None and not bad:
             msg = _check_extra(entry, container, nan, neg, maskk, err)
         params = dict(entry=entry, container=container, nan=nan, neg=neg,
-                      mask=maskk, err=err, boxw=boxw)
+                      mask=maskk, err=err, boxw=boxw, bad=bad)
         if msg is None:
             ctx.stats.unsat += 1
         else:
@@ -820,8 +829,8 @@ def replay(f):
         g['key'] = p['key']
         return mod.replay(g)
     msg = _check(p['entry'], p['container'], p['nan'], p['neg'], p['mask'],
-                 p['err'], p.get('boxw'))
-    if msg is None:
+                 p['err'], p.get('boxw'), bool(p.get('bad')))
+    if msg is None and not p.get('bad'):
         msg = _check_extra(p['entry'], p['container'], p['nan'], p['neg'],
                            p['mask'], p['err'])
     return msg is not None, str(msg)
